@@ -23,6 +23,8 @@ import BumpProof.Lemmas.CollPerm
 import BumpProof.Lemmas.CollStd
 import BumpProof.Lemmas.CollDrain
 import BumpProof.Lemmas.CollExtract
+import BumpProof.Lemmas.CollRev
+import BumpProof.Lemmas.CollRevPerm
 
 namespace C08
 open Coll
@@ -379,6 +381,156 @@ theorem append_refines (env : Env) (v other : Vec) (hv : v.WF) (ho : other.WF) (
   have ⟨ha, hl', hcp⟩ := after_facts (grown env v other.len) (appendSpec true v.abs other.abs) (by simp [appendSpec]; omega)
   refine ⟨_, _, heq, by simp [appendSpec], by rw [ha]; simp [appendSpec], rfl, ?_⟩
   rw [hl', hcp]; simp [appendSpec]; omega
+
+/-! ## `MutBumpVecRev`: `Vec` with front and back mirrored
+
+  `rabs v` = what `as_slice()` shows (index 0 = front).  `push` / `pop` / `extend*` / `append` /
+  `truncate` act on the FRONT (`VecDeque::push_front`, `pop_front`, …; `truncate(n)` keeps the LAST `n`),
+  `swap_remove` fills the gap with the FIRST element, `insert` / `remove` take ordinary indices. -/
+
+theorem rrefines_of_eq {α : Type} {res : M (Out α)} {v' : Vec} {r : SpecOut α} {rest : List Outcome}
+    (hres : res = .ok ⟨v'.rafter r, r.exit, rest⟩) (hle : r.final.length ≤ v'.cap) :
+    ∃ out, res = .ok out ∧ out.vec.rabs = r.final ∧ out.exit = r.exit ∧ out.rest = rest ∧
+      out.vec.len ≤ out.vec.cap ∧ out.vec.cap = v'.cap := by
+  have ⟨ha, hl', hc⟩ := rafter_facts v' r hle
+  exact ⟨_, hres, ha, rfl, rfl, by rw [hl', hc]; exact hle, hc⟩
+
+theorem rev_push_refines (env : Env) (v : Vec) (hv : v.RWF) (id : Id) :
+    ∃ r, rpush env v id = .ok r ∧ r.vec.len ≤ r.vec.cap ∧
+      (if rroom env v 1 then r.vec.rabs = id :: v.rabs ∧ r.exit = .ret () else r.vec.rabs = v.rabs ∧ r.exit = .panic false) := by
+  have ⟨hs, hl⟩ := hv.slots_eq
+  have hcap := hv.len_le_cap
+  have ⟨g, hc⟩ := rgrown_grows (env := env) (n := 1) hv
+  have heq := rpush_eq env v v.rabs id hs hl
+  have := g.cap
+  by_cases hr : rroom env v 1 = true
+  · have := hc hr
+    rw [hr] at heq
+    obtain ⟨r, h1, h2, h3, -, h5, -⟩ := rrefines_of_eq heq (by simp [rpushSpec]; omega)
+    exact ⟨r, h1, h5, by simpa [hr, rpushSpec] using And.intro h2 h3⟩
+  · have hr' : rroom env v 1 = false := by simpa using hr
+    rw [hr'] at heq
+    obtain ⟨r, h1, h2, h3, -, h5, -⟩ := rrefines_of_eq heq (by simp [rpushSpec]; omega)
+    exact ⟨r, h1, h5, by simpa [hr', rpushSpec] using And.intro h2 h3⟩
+
+theorem rev_pop_refines (v : Vec) (hv : v.RWF) :
+    ∃ r, rpop v = .ok r ∧ r.vec.rabs = v.rabs.tail ∧ r.exit = .ret v.rabs.head? ∧ r.vec.cap = v.cap := by
+  have ⟨hs, hl⟩ := hv.slots_eq
+  have hcap := hv.len_le_cap
+  have heq := rpop_eq v v.rabs hs hl
+  have hlen : (rpopSpec v.rabs).final.length ≤ v.cap := by
+    have := (rpopSpec_perm v.rabs).length_eq; simp only [List.length_append] at this; omega
+  obtain ⟨r, h1, h2, h3, -, -, h6⟩ := rrefines_of_eq heq hlen
+  refine ⟨r, h1, ?_, ?_, h6⟩
+  · rw [h2]; unfold rpopSpec; cases v.rabs <;> rfl
+  · rw [h3]; unfold rpopSpec; cases v.rabs <;> rfl
+
+/-- `truncate(n)` keeps the LAST `n` elements -/
+theorem rev_truncate_refines (v : Vec) (hv : v.RWF) (n : Nat) :
+    ∃ r, rtruncate [] v n = .ok r ∧ r.vec.rabs = v.rabs.drop (v.len - n) ∧ r.exit = .ret () ∧ r.vec.cap = v.cap := by
+  have ⟨hs, hl⟩ := hv.slots_eq
+  have hcap := hv.len_le_cap
+  have heq := rtruncate_eq [] v v.rabs n hs hl
+  have hlen : (rtruncateSpec [] v.rabs n).final.length ≤ v.cap := by
+    have := (rtruncateSpec_perm [] v.rabs n).length_eq; simp only [List.length_append] at this; omega
+  obtain ⟨r, h1, h2, h3, -, -, h6⟩ := rrefines_of_eq heq hlen
+  refine ⟨r, h1, ?_, ?_, h6⟩
+  · rw [h2]; unfold rtruncateSpec; split
+    · have : v.len - n = 0 := by omega
+      rw [this]; rfl
+    · rw [hl]
+  · rw [h3]; unfold rtruncateSpec; split <;> simp [dropExit]
+
+theorem rev_remove_refines (v : Vec) (hv : v.RWF) (i : Nat) :
+    ∃ r, rremove v i = .ok r ∧ r.vec.cap = v.cap ∧
+      (match v.rabs[i]? with
+       | some x => r.vec.rabs = v.rabs.eraseIdx i ∧ r.exit = .ret x
+       | none => r.vec.rabs = v.rabs ∧ r.exit = .panic false) := by
+  have ⟨hs, hl⟩ := hv.slots_eq
+  have hcap := hv.len_le_cap
+  have heq := rremove_eq v v.rabs i hs hl
+  have hlen := removeSpec_len v.rabs i
+  obtain ⟨r, h1, h2, h3, -, -, h6⟩ := rrefines_of_eq heq (by omega)
+  refine ⟨r, h1, h6, ?_⟩
+  rw [h2, h3]; unfold removeSpec
+  split <;> simp_all
+
+/-- `swap_remove(i)`: the FIRST element takes the place of the removed one -/
+theorem rev_swap_remove_refines (v : Vec) (hv : v.RWF) (i : Nat) :
+    ∃ r, rswapRemove v i = .ok r ∧ r.vec.cap = v.cap ∧
+      (match v.rabs[i]?, v.rabs.head? with
+       | some x, some f => r.vec.rabs = (v.rabs.set i f).tail ∧ r.exit = .ret x
+       | _, _ => r.vec.rabs = v.rabs ∧ r.exit = .panic false) := by
+  have ⟨hs, hl⟩ := hv.slots_eq
+  have hcap := hv.len_le_cap
+  have heq := rswapRemove_eq v v.rabs i hs hl
+  have hlen : (rswapRemoveSpec v.rabs i).final.length ≤ v.cap := by
+    have := (rswapRemoveSpec_perm v.rabs i).length_eq; simp only [List.length_append] at this; omega
+  obtain ⟨r, h1, h2, h3, -, -, h6⟩ := rrefines_of_eq heq hlen
+  refine ⟨r, h1, h6, ?_⟩
+  rw [h2, h3]; unfold rswapRemoveSpec
+  split <;> simp_all
+
+theorem rev_insert_refines (env : Env) (v : Vec) (hv : v.RWF) (i : Nat) (id : Id) (hroom : rroom env v 1 = true) :
+    ∃ r, rinsert env v i id = .ok r ∧
+      (if i ≤ v.len then r.vec.rabs = v.rabs.take i ++ id :: v.rabs.drop i ∧ r.exit = .ret ()
+       else r.vec.rabs = v.rabs ∧ r.exit = .panic false) := by
+  have ⟨hs, hl⟩ := hv.slots_eq
+  have hcap := hv.len_le_cap
+  have ⟨g, hc⟩ := rgrown_grows (env := env) (n := 1) hv
+  have heq := rinsert_eq env v v.rabs i id hs hl
+  have hlen := insertSpec_len (rroom env v 1) v.rabs i id
+  have := hc hroom
+  have := g.cap
+  rw [hroom] at heq hlen
+  by_cases hi : i ≤ v.len
+  · simp only [hi, ↓reduceIte] at heq ⊢
+    have hi' : i ≤ v.rabs.length := by omega
+    simp only [hi', and_self, ↓reduceIte] at hlen
+    obtain ⟨r, h1, h2, h3, -, -, -⟩ := rrefines_of_eq heq (by omega)
+    exact ⟨r, h1, by rw [h2, h3]; simp [insertSpec, hi']⟩
+  · simp only [hi, ↓reduceIte] at heq ⊢
+    have hi' : ¬ i ≤ v.rabs.length := by omega
+    simp only [hi', false_and, ↓reduceIte] at hlen
+    obtain ⟨r, h1, h2, h3, -, -, -⟩ := rrefines_of_eq heq (by omega)
+    exact ⟨r, h1, by rw [h2, h3]; simp [insertSpec, hi']⟩
+
+/-- the clones of `extend_from_slice_clone` are pushed to the front one after the other -/
+theorem rextendCloneSpec_rets (ids : List Id) : ∀ (xs : List Id) (o : List Outcome),
+    rextendCloneSpec xs ids.length (rets ids ++ o) = { final := ids.reverse ++ xs, exit := .ret (), rest := o } := by
+  induction ids with
+  | nil => intro xs o; simp [rextendCloneSpec, rets]
+  | cons id ids ih =>
+    intro xs o
+    simp only [List.length_cons, rets, List.map_cons, List.cons_append, rextendCloneSpec]
+    have := ih (id :: xs) o
+    simp only [rets] at this
+    rw [this]; simp
+
+theorem rev_extend_from_slice_clone_refines (env : Env) (v : Vec) (hv : v.RWF) (ids : List Id) (o : List Outcome)
+    (hroom : rroom env v ids.length = true) :
+    ∃ r, rextendFromSliceClone env v ids.length (rets ids ++ o) = .ok r ∧ r.vec.rabs = ids.reverse ++ v.rabs ∧
+      r.exit = .ret () ∧ r.rest = o := by
+  have ⟨hs, hl⟩ := hv.slots_eq
+  have ⟨g, hc⟩ := rgrown_grows (env := env) (n := ids.length) hv
+  have heq := rextendFromSliceClone_eq env v v.rabs ids.length (rets ids ++ o) hs hl
+  rw [hroom] at heq
+  simp only [rextendCloneSpecR, ↓reduceIte, rextendCloneSpec_rets] at heq
+  have := hc hroom
+  obtain ⟨r, h1, h2, h3, h4, -, -⟩ := rrefines_of_eq heq (by simp; omega)
+  exact ⟨r, h1, h2, h3, h4⟩
+
+/-- `append(other)` puts `other` IN FRONT -/
+theorem rev_append_refines (env : Env) (v other : Vec) (hv : v.RWF) (ho : other.WF) (hroom : rroom env v other.len = true) :
+    ∃ r o', rappend env v other = .ok (r, o') ∧ r.exit = .ret () ∧ r.vec.rabs = other.abs ++ v.rabs ∧ o'.len = 0 := by
+  have ⟨hs, hl⟩ := hv.slots_eq
+  have ⟨hso, hlo⟩ := ho.slots_eq
+  have heq := rappend_eq env v other v.rabs other.abs hs hl hso hlo
+  have ⟨g, hc⟩ := rgrown_grows (env := env) (n := other.len) hv
+  have := hc hroom
+  rw [hroom] at heq
+  have ⟨ha, _, _⟩ := rafter_facts (rgrown env v other.len) (rappendSpec true v.rabs other.abs) (by simp [rappendSpec]; omega)
+  exact ⟨_, _, heq, by simp [rappendSpec], by rw [ha]; simp [rappendSpec], rfl⟩
 
 /-- non-vacuity: `[1,2,3,4,5].retain(|x| answers 1,0,1,1,0)` on a vector with 2 spare slots -/
 example : ∃ r, retain [] (Vec.mk' [1, 2, 3, 4, 5] 2) (rets [1, 0, 1, 1, 0]) = .ok r ∧ r.vec.abs = [1, 3, 4] ∧ r.vec.cap = 7 :=
